@@ -109,6 +109,9 @@ func (e *env) sencCases(r *hx.Rng, n int, next func() string) {
 				samples = append(samples, frame(genVideoSampleCenc(r, codec, 0)))
 			}
 		}
+		if codec != 'u' && ns >= 2 && r.Intn(25) == 0 { // one sample without any protection range
+			samples[r.Intn(ns)] = []byte{0, 0, 0, 0}
+		}
 		key := r.Bytes(16, nil)
 		iv := genIV(r, r.Pick(8, 16))
 		o := fragOpts{extraMoof: r.Pick(0, 1, 2), extraTraf: r.Pick(0, 1, 2, 3), moofBefore: r.Bool()}
